@@ -179,6 +179,7 @@ def consumed_keys():
 def run(rep: core.Report):
     _r16g(rep)
     _r16k(rep)
+    _r16l(rep)
     _r16j(rep)
     from rules import c03
 
@@ -710,6 +711,64 @@ def _r16j(rep):
 
 
 
+def _r16l(rep):
+    """The dataset section of phonopy.yaml, evaluated over the four settings (force_sets, displacements)."""
+    import itertools
+
+    rep.rule("R16l", "phonopy.yaml dumper, dataset section evaluated over the finite domain force_sets x displacements in {on, off}: the displacement dataset is written whenever either setting is on, and it contains the forces exactly when force_sets is on (so that Phonopy.save(settings={'force_sets': True, 'displacements': False}), which leaves the force constants out because forces are there, still writes the forces)", 4)
+    rel = "phonopy/interface/phonopy_yaml.py"
+    fn = core.find_def(rel, "PhonopyYamlDumperBase._dataset_yaml_lines")
+
+    class Unknown(Exception):
+        pass
+
+    def ev(e, env):
+        if isinstance(e, ast.Subscript) and core.src(e.value) == "self._dumper_settings" and isinstance(e.slice, ast.Constant) and e.slice.value in env:
+            return env[e.slice.value]
+        if isinstance(e, ast.Name) and e.id in env:
+            return env[e.id]
+        if isinstance(e, ast.Constant) and isinstance(e.value, bool):
+            return e.value
+        if isinstance(e, ast.UnaryOp) and isinstance(e.op, ast.Not):
+            return not ev(e.operand, env)
+        if isinstance(e, ast.BoolOp):
+            vals = [ev(v, env) for v in e.values]
+            return all(vals) if isinstance(e.op, ast.And) else any(vals)
+        raise Unknown(core.src(e))
+
+    def run(stmts, env, calls):
+        """True when a return was executed"""
+        for st in stmts:
+            for c in [x for x in ast.walk(st) if isinstance(x, ast.Call) and core.src(x.func) == "self._displacements_yaml_lines"] if not isinstance(st, ast.If) else []:
+                wf = [k.value for k in c.keywords if k.arg == "with_forces"] or c.args[:1]
+                calls.append(ev(wf[0], env) if wf else False)
+            if isinstance(st, ast.If):
+                if run(st.body if ev(st.test, env) else st.orelse, env, calls):
+                    return True
+            elif isinstance(st, ast.Return):
+                return True
+            elif isinstance(st, ast.Assign) and len(st.targets) == 1 and isinstance(st.targets[0], ast.Name):
+                try:
+                    env[st.targets[0].id] = ev(st.value, env)
+                except Unknown:
+                    env.pop(st.targets[0].id, None)
+            elif isinstance(st, (ast.AugAssign, ast.Expr)):
+                pass
+            else:
+                raise Unknown(core.src(st))
+        return False
+
+    for fs, disp in itertools.product((True, False), repeat=2):
+        calls = []
+        try:
+            run(fn.body, {"force_sets": fs, "displacements": disp}, calls)
+        except Unknown as e:
+            raise AnalysisError(f"R16l: _dataset_yaml_lines: '{core.norm(str(e), 60)}' cannot be evaluated over the settings")
+        want = [fs] if (fs or disp) else []
+        rep.instance("R16l", rel, "PhonopyYamlDumperBase._dataset_yaml_lines", f"force_sets={fs}, displacements={disp}: dataset written {len(calls)}x, with forces {calls}", calls == want,
+                     f"with force_sets={fs} and displacements={disp} the dataset section is written {len(calls)} time(s) with forces {calls} instead of {want}: the saved file then holds neither forces nor force constants (save() omits the force constants when the dataset has forces), and reloading it cannot reproduce the calculation", line=fn.lineno)
+
+
 def _r16k(rep):
     """What the file stores is used when the caller does not say otherwise: the resolved value, not the raw argument."""
     LOAD = "phonopy/cui/load.py"
@@ -773,6 +832,9 @@ def selftest():
     V = []
     b = lambda name, file, old, new, rule, expect="", **kw: V.append(dict(name=name, kind="break", file=file, old=old, new=new, rule=rule, expect=expect, **kw))
     n = lambda name, file, old, new, **kw: V.append(dict(name=name, kind="neutral", file=file, old=old, new=new, **kw))
+    YML_ = "phonopy/interface/phonopy_yaml.py"
+    b("dataset section only under the displacements setting", YML_, "        lines = []\n        if (\n            self._dumper_settings[\"force_sets\"]\n            or self._dumper_settings[\"displacements\"]\n        ):\n            disp_yaml_lines = self._displacements_yaml_lines(\n                with_forces=self._dumper_settings[\"force_sets\"]\n            )\n            lines += disp_yaml_lines\n        return lines\n", "        if not self._dumper_settings[\"displacements\"]:\n            return []\n        return self._displacements_yaml_lines(\n            with_forces=self._dumper_settings[\"force_sets\"]\n        )\n", "R16l", "_dataset_yaml_lines")
+    n("dataset section with early return on both settings off", YML_, "        lines = []\n        if (\n            self._dumper_settings[\"force_sets\"]\n            or self._dumper_settings[\"displacements\"]\n        ):\n            disp_yaml_lines = self._displacements_yaml_lines(\n                with_forces=self._dumper_settings[\"force_sets\"]\n            )\n            lines += disp_yaml_lines\n        return lines\n", "        with_forces = self._dumper_settings[\"force_sets\"]\n        if not (with_forces or self._dumper_settings[\"displacements\"]):\n            return []\n        return self._displacements_yaml_lines(with_forces=with_forces)\n")
     b("dumper renames dielectric key", YML, 'lines.append("  dielectric_constant:")', 'lines.append("  dielectric_tensor:")', "R16a", "dielectric_constant")
     b("loader looks for 'forceconstants'", YML, 'self._yaml["force_constants"]', 'self._yaml["forceconstants"]', "R16a", "force", nth=0)
     b("save overrides the caller's explicit request", API, '        if _settings.get("force_constants") is False:\n            pass\n        elif not forces_in_dataset(self.dataset) and self.force_constants is not None:\n            _settings.update({"force_constants": True})', '        if _settings.get("force_constants", True) and self.force_constants is not None:\n            _settings["force_constants"] = not forces_in_dataset(self.dataset)', "R16b", "only ever set to True")
